@@ -307,7 +307,9 @@ def probe_product(case):
     except Exception as e:  # noqa: BLE001
         return [(exc_sig(e, "exc:product.list"), exc_msg(e))], None
     fails = []
-    c = cmp_lists(got, exp, False)
+    # the product of LISTS: when every operand's own order is determined (dims omitted or in item order) so is the product's
+    ordered = all(M.order_required(s_) for s_ in ops)
+    c = cmp_lists(got, exp, ordered)
     if c:
         msg = f"product gave {len(got) if isinstance(got, list) else '?'} combinations {short(got, 300)}; the Cartesian product of the operands' lists has {len(exp)}: {short(exp, 300)}"
         if c in ("extra-combos", "wrong-combos") and trigger26(ops) and ms(got) == ms(M.unzipped_full_product(ops)):
@@ -339,7 +341,8 @@ def probe_concat(case):
         if form == "MultiSweep":
             m = MultiSweep(*sw)
         elif form == "add-right" and len(sw) == 3:
-            m = sw[0] + (sw[1] + sw[2])
+            inner = sw[1] + sw[2]
+            m = sw[0] + inner
         elif form == "combine":
             m = sw[0]
             for o in sw[1:]:
@@ -384,6 +387,19 @@ def probe_concat(case):
                 fails.append((f"concat[{form}]:iter-differs-from-list", f"{short(it)} vs {short(got)}"))
         except Exception as e:  # noqa: BLE001
             fails.append((exc_sig(e, f"exc:iter(concat[{form}])"), exc_msg(e)))
+        if form == "add-right" and len(sw) == 3:
+            # a MultiSweep nested inside another one is extended afterwards (`+` extends a MultiSweep in place): whatever the
+            # outer sweep now enumerates, len(), list() and iteration must still agree with one another
+            try:
+                inner.combine(build(ops[0]))
+                got2 = m.list()
+                n2, it2 = len(m), list(m)
+                if n2 != len(got2):
+                    fails.append((f"concat[{form}]:len-differs-from-list/after-nested-operand-grew", f"len == {n2!r}, len(list()) == {len(got2)}"))
+                if it2 != got2:
+                    fails.append((f"concat[{form}]:iter-differs-from-list/after-nested-operand-grew", f"{short(it2)} vs {short(got2)}"))
+            except Exception as e:  # noqa: BLE001
+                fails.append((exc_sig(e, f"exc:concat[{form}]/after-nested-operand-grew"), exc_msg(e)))
     return fails, {"got": got}
 
 
